@@ -25,6 +25,8 @@ var solvers = []solverDef{
 	{"z3", func(f string, t int) []string { return []string{"z3", fmt.Sprintf("-T:%d", t), f} }},
 }
 
+var coverKinds = map[string]bool{"ensures": true, "assert": true, "requires": true, "invariant": true}
+
 type solveResult struct {
 	status string // unsat | sat | unknown | timeout | error
 	solver string
@@ -132,6 +134,17 @@ func discharge(obls []*Obligation, dir string, timeoutS int, workers int) {
 				o.Model = r.output
 			} else if r.status == "error" {
 				o.Model = r.output
+			}
+			// vacuity guard for contract obligations: the path condition itself must be satisfiable
+			if r.status == "unsat" && coverKinds[o.Kind] {
+				cq := o.Script.query(o.N, []Term{o.Hyp}, false)
+				cfile := filepath.Join(dir, fmt.Sprintf("%04d_%s.cover.smt2", i, safeFile(o.Name)))
+				os.WriteFile(cfile, []byte(cq), 0o644)
+				cr := runSolvers(cfile, timeoutS)
+				if cr.status == "unsat" {
+					o.Status = "vacuous"
+					o.Model = "the path condition of this obligation is unsatisfiable: the obligation holds vacuously (contradictory assumptions or dead code under contract)"
+				}
 			}
 		}(i, o)
 	}
